@@ -203,7 +203,7 @@ def sexpr_to_value(v):
         if len(v) == 4 and v[0] == "fp":
             s, e, m = [sexpr_to_value(x) for x in v[1:]]
             return ("fpbits", (s << 63) | (e << 52) | m)
-        if len(v) == 3 and v[0] == "_" and v[1] in ("+oo", "-oo", "NaN", "+zero", "-zero"):
+        if len(v) in (3, 4) and v[0] == "_" and v[1] in ("+oo", "-oo", "NaN", "+zero", "-zero"):
             return ("fpbits", {"+oo": 0x7ff0000000000000, "-oo": 0xfff0000000000000, "NaN": 0x7ff8000000000000, "+zero": 0, "-zero": 0x8000000000000000}[v[1]])
         if len(v) == 2 and v[0] == "-":
             return -sexpr_to_value(v[1])
@@ -392,8 +392,11 @@ def z3_model_inputs(E, m, used):
         elif k == "bool":
             res[nm] = z3.is_true(m.eval(t, model_completion=True))
         elif k == "float64":
-            v = m.eval(z3.fpToIEEEBV(t), model_completion=True)
-            res[nm] = {"f64bits": v.as_long()}
+            if z3.is_true(m.eval(z3.fpIsNaN(t), model_completion=True)):
+                res[nm] = {"f64bits": 0x7ff8000000000000}
+            else:
+                v = m.eval(z3.fpToIEEEBV(t), model_completion=True)
+                res[nm] = {"f64bits": v.as_long()}
         elif k == "string":
             continue
         else:
